@@ -75,8 +75,14 @@ var (
 )
 
 func newStack(depth int, skip int, sourceLines int, sourceDepth int) *stack {
-	pcs := make([]uintptr, depth)
+	// depth comes from StackDepth: grow the buffer as the call stack turns out to need
+	// instead of allocating depth words up front.
+	pcs := make([]uintptr, min(depth, callersDepth))
 	n := runtime.Callers(skip, pcs)
+	for n == len(pcs) && len(pcs) < depth {
+		pcs = make([]uintptr, min(depth, 2*len(pcs)))
+		n = runtime.Callers(skip, pcs)
+	}
 	return &stack{
 		pcs:         pcs[:n],
 		sourceLines: sourceLines,
